@@ -66,6 +66,8 @@ class IntegrateModel:
         self.repo = repo
         self.fn = fn = repo.get(DS, "OdeSystem.integrate")
         self.params = [a.arg for a in fn.args.args]
+        fx = repo.maybe(DS, "OdeSystem.__fix_dt_dir")
+        self.fix_params = [a.arg for a in fx.args.args if a.arg != "self"] if fx is not None else ["t1", "t0"]
         if self.params[:5] != ["self", "t", "callback", "eta", "events"]:
             raise AnalysisError("OdeSystem.integrate signature changed: %s" % self.params)
         # the target local: assigned from parameter t and from self.tf
